@@ -180,7 +180,7 @@ TARGETS = [
     dict(name="x25519-invert", ladder=True, params=[{}]),
     dict(name="x25519-ladder-bounds", ladder=True, params=[{}]),
     dict(name="sc25519-invert", ladder=True, params=[{}]),
-    dict(name="ed25519-scalarmult-alg", scalarmult=True, params=[{"op": "scalarmult_base"}, {"op": "scalarmult"}, {"op": "base_table"}]),
+    dict(name="ed25519-scalarmult-alg", scalarmult=True, params=[{"op": "scalarmult_base"}, {"op": "scalarmult"}, {"op": "base_table"}, {"op": "mul_l"}]),
     dict(name="edwards-group-ops", edwards=True, params=[{"op": c} for c in ("add_cached", "sub_cached", "add_precomp", "sub_precomp", "p2_dbl", "p3_dbl", "p1p1_to_p3",
                                                                               "p1p1_to_p2", "p3_to_cached", "p3_to_p2", "p3_0")]),
     dict(name="fe25519-51-x25519", units=["crypto_scalarmult/curve25519/ref10/x25519_ref10.c", "sodium/utils.c"], cflags=["-fno-inline-functions"], run=fe51_op,
